@@ -201,6 +201,10 @@ class Cell(PType):
             c = [rng.uniform(2, 20) for _ in range(3)] + [rng.uniform(40, 140) for _ in range(3)]
             if rng.random() < 0.2:
                 c[3 + rng.randrange(3)] = 90.0
+            if rng.random() < 0.25:
+                # strongly oblique: one very acute or very obtuse angle, the others near 90
+                c[3:] = [rng.uniform(80, 100) for _ in range(3)]
+                c[3 + rng.randrange(3)] = rng.choice([rng.uniform(9, 30), rng.uniform(150, 171)])
             ca, cb, cg = [math.cos(math.radians(x)) for x in c[3:]]
             if 1 - ca * ca - cb * cb - cg * cg + 2 * ca * cb * cg >= 0.02:
                 return c
@@ -381,6 +385,7 @@ class Engine:
             ns.update(extra_ns)
         if transform is None and getattr(k, 'let_abstraction', True):
             transform = _lets.transform
+        self.add_helpers(k.module, k.name, ns, transform)
         fn = self.src.compile(k.module, k.name, ns, transform=transform)
         work = [[]]
         results = []
@@ -424,6 +429,28 @@ class Engine:
             finally:
                 set_ctx(None)
         return results
+
+    def add_helpers(self, module, name, ns, transform, seen=None):
+        """module-level functions that the function refers to and that have no contract are executed
+        inline: their real text is compiled into the same namespace (recursively)"""
+        import ast as _ast
+        seen = set() if seen is None else seen
+        seen.add(name)
+        try:
+            fd = self.src.funcdef(module, name)
+        except KeyError:
+            return
+        funcs = self.src.functions(module)
+        for node in _ast.walk(fd):
+            if isinstance(node, _ast.Name) and isinstance(node.ctx, _ast.Load) and node.id in funcs \
+                    and node.id not in ns and node.id not in seen:
+                self.add_helpers(module, node.id, ns, transform, seen)
+                ns[node.id] = self.src.compile(module, node.id, ns, transform=transform)
+                self.inlined = getattr(self, 'inlined', set()) | {'%s.%s' % (module, node.id)}
+
+    def compile(self, module, name, ns, transform=None):
+        self.add_helpers(module, name, ns, transform)
+        return self.src.compile(module, name, ns, transform=transform)
 
     def probe_env(self, k):
         """one random admissible numeric input, used only to reject wrong proof hints quickly"""
@@ -506,6 +533,7 @@ class PathResult:
 def run_paths(src, module, name, make_args, namespace, max_paths=64, transform=None):
     """enumerate the paths of one real function on arguments built by make_args() (called once per
     path inside a fresh context); returns [(ctx, args, outcome)]"""
+    Engine(src).add_helpers(module, name, namespace, transform)
     fn = src.compile(module, name, namespace, transform=transform)
     work = [[]]
     out = []
